@@ -77,7 +77,6 @@ def run_expv(ctx: Ctx) -> None:
                             if not teq(c["grid"], want_grid):
                                 return False, (f"call {k}: sampling positions are not identity_coords(align_corners={ac}) + d_{k}: "
                                                f"first point {tstr(c['grid'].reshape([-1, D])[0])} expected {tstr(want_grid.reshape([-1, D])[0])}")
-                            samp = symt.grid_sample.__wrapped__(k, c) if hasattr(symt.grid_sample, "__wrapped__") else None
                             d = d.add(_replay(k, c))
                         if not teq(out, d):
                             return False, "result is not d_0 + sum of sampled increments"
@@ -91,11 +90,9 @@ def _channels_last(t: STensor) -> STensor:
 
 
 def _replay(k: int, c: Dict[str, Any]) -> STensor:
-    """Recompute what the grid_sample model returned for recorded call k (same opaque atoms)."""
+    """Recompute what the grid_sample model returned for recorded call k (opaque values are named by argument digest)."""
     saved = list(symt.GRID_SAMPLE_CALLS)
     try:
-        del symt.GRID_SAMPLE_CALLS[:]
-        symt.GRID_SAMPLE_CALLS.extend(saved[:k])
         return symt.grid_sample(c["input"], c["grid"], c["mode"], c["padding_mode"], c["align_corners"])
     finally:
         del symt.GRID_SAMPLE_CALLS[:]
